@@ -148,23 +148,6 @@ End Dedup.
 (* ---------------------------------------------------------------------------------------- *)
 (* helpers naming the local fixpoints of the model *)
 
-Fixpoint kids_of (f : rewrite -> xres) (l : list rewrite) : xerr + list tree :=
-  match l with
-  | [] => inr []
-  | x :: l' => match f x, kids_of f l' with
-               | XErr e, _ => inl e
-               | XTree _, inl e => inl e
-               | XTree t, inr ts => inr (t :: ts)
-               end
-  end.
-
-Fixpoint kids_check (f : rewrite -> tree -> bool) (l : list rewrite) (ts : list tree) : bool :=
-  match l, ts with
-  | [], [] => true
-  | x :: l', t :: ts' => f x t && kids_check f l' ts'
-  | _, _ => false
-  end.
-
 Lemma skeleton_union : forall l, skeleton (Union l) = KUnion (map skeleton l).
 Proof. reflexivity. Qed.
 Lemma skeleton_inter : forall l, skeleton (Inter l) = KInter (map skeleton l).
@@ -196,6 +179,27 @@ Proof. intros m t l. simpl. induction l as [| x l IH]; simpl; [reflexivity | rew
 Lemma tuplesets_defined_inter : forall m t l,
   tuplesets_defined m t (Inter l) = forallb (tuplesets_defined m t) l.
 Proof. intros m t l. simpl. induction l as [| x l IH]; simpl; [reflexivity | rewrite IH; reflexivity]. Qed.
+
+(* ---------------------------------------------------------------------------------------- *)
+(* Forall2 helpers *)
+
+Lemma Forall2_map_rel : forall (A B : Type) (P P' : A -> B -> Prop) l,
+  Forall (fun x => forall t, P x t -> P' x t) l ->
+  forall ts, Forall2 P l ts -> Forall2 P' l ts.
+Proof.
+  intros A B P P'. induction l as [| x l IH]; intros HF ts H2; inversion H2; subst.
+  - constructor.
+  - inversion HF; subst. constructor; [auto | apply IH; assumption].
+Qed.
+
+Lemma Forall2_unique_rel : forall (A B : Type) (P : A -> B -> Prop) (Q : B -> B -> Prop) l,
+  Forall (fun x => forall t1 t2, P x t1 -> P x t2 -> Q t1 t2) l ->
+  forall a b, Forall2 P l a -> Forall2 P l b -> Forall2 Q a b.
+Proof.
+  intros A B P Q. induction l as [| x l IH]; intros HF a b Ha Hb; inversion Ha; subst; inversion Hb; subst.
+  - constructor.
+  - inversion HF; subst. constructor; [eauto | apply IH; assumption].
+Qed.
 
 (* ---------------------------------------------------------------------------------------- *)
 (* lexicographic order: total and transitive (so the hypotheses on [leb] are satisfiable) *)
@@ -496,7 +500,7 @@ Section Spec.
       - destruct t; simpl; try (split; [discriminate | intros H; inversion H]).
         rewrite !andb_true_iff, !nodename_eqb_eq, computed_ok_spec. split.
         + intros [[H1 H2] H3]. subst. constructor. exact H3.
-        + intros H. inversion H; subst. repeat split; try reflexivity. assumption.
+        + intros H. inversion H; subst. split; [split; reflexivity | assumption].
       - destruct t; try (simpl; split; [discriminate | intros H; inversion H]).
         rewrite check_union_eq, andb_true_iff, nodename_eqb_eq, (kids_check_mirrors l IH). split.
         + intros [H1 H2]. subst. constructor. exact H2.
@@ -608,14 +612,8 @@ Section Spec.
       match goal with H : computed_spec _ _ _ _ _ |- _ => destruct H as [Hn Hu] end.
       split; [exact Hn |]. intros e. rewrite Hu.
       split; intros [t [Hon He]]; exists t; (split; [| exact He]); eapply on_spec_ext; eauto.
-    - constructor.
-      match goal with H : Forall2 _ l _ |- _ => revert IH; induction H as [| x y l' ts' Hxy HF2 IHF]; intros IH end.
-      + constructor.
-      + inversion IH; subst. constructor; [auto | apply IHF; [constructor; assumption | assumption]].
-    - constructor.
-      match goal with H : Forall2 _ l _ |- _ => revert IH; induction H as [| x y l' ts' Hxy HF2 IHF]; intros IH end.
-      + constructor.
-      + inversion IH; subst. constructor; [auto | apply IHF; [constructor; assumption | assumption]].
+    - constructor. eapply Forall2_map_rel; [exact IH | assumption].
+    - constructor. eapply Forall2_map_rel; [exact IH | assumption].
     - constructor; auto.
   Qed.
 
@@ -666,16 +664,8 @@ Section Spec.
       match goal with Ha : computed_spec _ _ _ _ ?a, Hb : computed_spec _ _ _ _ ?b |- _ =>
         destruct Ha as [Hna Hua]; destruct Hb as [Hnb Hub] end.
       apply NoDup_Permutation; try assumption. intros x. rewrite Hua, Hub. tauto.
-    - constructor.
-      match goal with Ha : Forall2 _ l ?a, Hb : Forall2 _ l ?b |- _ =>
-        revert b Hb IH; induction Ha as [| x y l' ts' Hxy HF2 IHF]; intros b Hb IH; inversion Hb; subst end.
-      + constructor.
-      + inversion IH; subst. constructor; [auto | apply IHF; assumption].
-    - constructor.
-      match goal with Ha : Forall2 _ l ?a, Hb : Forall2 _ l ?b |- _ =>
-        revert b Hb IH; induction Ha as [| x y l' ts' Hxy HF2 IHF]; intros b Hb IH; inversion Hb; subst end.
-      + constructor.
-      + inversion IH; subst. constructor; [auto | apply IHF; assumption].
+    - constructor. eapply Forall2_unique_rel; [exact IH | eassumption | eassumption].
+    - constructor. eapply Forall2_unique_rel; [exact IH | eassumption | eassumption].
     - constructor; auto.
   Qed.
 
@@ -691,3 +681,264 @@ Section Spec.
     eapply mirrors_unique; [eapply mirrors_ext; [exact Hx | exact He] | exact He'].
   Qed.
 End Spec.
+
+(* ---------------------------------------------------------------------------------------- *)
+(* corollaries in the form quoted by Props/C30.v *)
+
+Section Corollaries.
+  Variable leb : subject -> subject -> bool.
+  Variable m : model.
+  Variable conds : list cid.
+  Hypothesis leb_total : forall a b, leb a b = true \/ leb b a = true.
+
+  Theorem expand_shape_lemma : forall all o r rw t,
+    expand_rw leb m conds all o r rw = XTree t ->
+    shape t = skeleton rw /\ named (o, r) t.
+  Proof.
+    intros all o r rw t He. eapply mirrors_shape. eapply expand_mirrors; eassumption.
+  Qed.
+
+  Theorem expand_leaf_users_lemma : forall all o r,
+    exists us, expand_rw leb m conds all o r This = XTree (TUsers (o, r) us) /\
+      Sorted (fun a b => leb a b = true) us /\ NoDup us /\
+      forall u, In u us <->
+        exists t, In t all /\ valid_for_read m conds t = true /\ t_obj t = o /\ t_rel t = r /\ t_sub t = u.
+  Proof.
+    intros all o r. exists (this_users leb m conds all o r). split; [reflexivity |].
+    destruct (this_users_spec leb m conds leb_total all o r) as [Hs [Hn Hu]].
+    split; [exact Hs |]. split; [exact Hn |]. intros u. rewrite Hu. unfold on_spec.
+    split; intros [t H]; exists t; tauto.
+  Qed.
+
+  Theorem expand_leaf_refs_lemma : forall all o r,
+    (forall r', expand_rw leb m conds all o r (Computed r') = XTree (TComputed (o, r) (o, r'))) /\
+    (forall ts c, rel_defined m (otype o) ts = true ->
+       exists cs, expand_rw leb m conds all o r (TTU ts c) = XTree (TTupleToUserset (o, r) (o, ts) cs) /\
+         NoDup cs /\
+         forall e, In e cs <->
+           exists t, In t all /\ valid_for_read m conds t = true /\ t_obj t = o /\ t_rel t = ts /\
+                     ttu_ref c (t_sub t) = e).
+  Proof.
+    intros all o r. split; [reflexivity |]. intros ts c Hd.
+    exists (ttu_computed m conds all o ts c). simpl. rewrite Hd. split; [reflexivity |].
+    destruct (ttu_computed_spec m conds all o ts c) as [Hn Hu].
+    split; [exact Hn |]. intros e. rewrite Hu. unfold on_spec.
+    split; intros [t H]; exists t; tauto.
+  Qed.
+End Corollaries.
+
+(* ---- conditions are not evaluated ---- *)
+Definition with_ceval (t : tuple) (b : b3) : tuple :=
+  {| t_obj := t_obj t; t_rel := t_rel t; t_sub := t_sub t; t_cond := t_cond t; t_ceval := b |}.
+
+Lemma filter_map_comm : forall (A : Type) (g : A -> A) (p : A -> bool) l,
+  (forall x, p (g x) = p x) -> filter p (map g l) = map g (filter p l).
+Proof.
+  intros A g p l Hp. induction l as [| x l IH]; simpl; [reflexivity |].
+  rewrite Hp. destruct (p x); simpl; rewrite IH; reflexivity.
+Qed.
+
+Section Ceval.
+  Variable leb : subject -> subject -> bool.
+  Variable m : model.
+  Variable conds : list cid.
+  Variable f : tuple -> b3.
+
+  Let g (t : tuple) : tuple := with_ceval t (f t).
+
+  Lemma read_valid_ceval : forall all o r,
+    read_valid m conds (map g all) o r = map g (read_valid m conds all o r).
+  Proof.
+    intros all o r. unfold read_valid.
+    rewrite (filter_map_comm _ g (on_atom o r)); [| intros x; reflexivity].
+    rewrite (filter_map_comm _ g (valid_for_read m conds)); [reflexivity |].
+    intros x. reflexivity.
+  Qed.
+
+  Lemma kids_of_ext : forall (f1 f2 : rewrite -> xres) l,
+    Forall (fun x => f1 x = f2 x) l -> kids_of f1 l = kids_of f2 l.
+  Proof.
+    intros f1 f2 l HF. induction HF as [| x l Hx HF IH]; simpl; [reflexivity |].
+    rewrite Hx, IH. reflexivity.
+  Qed.
+
+  Theorem expand_ignores_ceval_lemma : forall all o r rw,
+    expand_rw leb m conds (map g all) o r rw = expand_rw leb m conds all o r rw.
+  Proof.
+    intros all o r.
+    induction rw as [| r' | ts c | l IH | l IH | b s IHb IHs] using rewrite_ind'; simpl.
+    - unfold this_users. rewrite read_valid_ceval, map_map. reflexivity.
+    - reflexivity.
+    - unfold ttu_computed. rewrite read_valid_ceval, map_map. reflexivity.
+    - rewrite (kids_of_ext _ _ l IH). reflexivity.
+    - rewrite (kids_of_ext _ _ l IH). reflexivity.
+    - rewrite IHb, IHs. reflexivity.
+  Qed.
+End Ceval.
+
+(* ---- top level: contextual tuples ---- *)
+Section Top.
+  Variable leb : subject -> subject -> bool.
+  Variable m : model.
+  Variable conds : list cid.
+
+  (* an accepted contextual tuple passes the read filter: it is never silently dropped *)
+  Lemma ctx_ok_valid : forall t, ctx_tuple_err m conds t = None -> valid_for_read m conds t = true.
+  Proof.
+    intros t H. unfold ctx_tuple_err in H. unfold valid_for_read.
+    destruct (negb (wf_for_write m t)); [discriminate |].
+    destruct (get_relation m (otype (t_obj t)) (t_rel t)) as [rd |]; [| discriminate].
+    destruct (if is_tupleset m (otype (t_obj t)) (t_rel t)
+              then is_this (rd_rw rd) && match t_sub t with SObj _ => true | _ => false end
+              else true); simpl in *; [| discriminate].
+    destruct (type_restr_ok (rd_restr rd) (t_sub t)); simpl in *; [| discriminate].
+    destruct (if N.eqb (t_cond t) 0 then nocond_ok (rd_restr rd) (t_sub t)
+              else cond_ok conds (rd_restr rd) (t_sub t) (t_cond t)); simpl in *; [reflexivity | discriminate].
+  Qed.
+
+  Lemma first_ctx_err_none : forall ctx, first_ctx_err m conds ctx = None ->
+    forall t, In t ctx -> ctx_tuple_err m conds t = None.
+  Proof.
+    induction ctx as [| x ctx IH]; simpl; intros H t Hin; [contradiction |].
+    destruct (ctx_tuple_err m conds x) eqn:Hx; [discriminate |].
+    destruct Hin as [Hin | Hin]; [subst; exact Hx | apply IH; assumption].
+  Qed.
+
+  (* passing tuples as contextual tuples = having them stored first *)
+  Theorem expand_ctx_eq_stored_lemma : forall ctx stored q,
+    first_ctx_err m conds ctx = None ->
+    expand_top leb m conds ctx stored q = expand_top leb m conds [] (ctx ++ stored) q.
+  Proof.
+    intros ctx stored q H. unfold expand_top. rewrite H. simpl. reflexivity.
+  Qed.
+
+  Hypothesis leb_total : forall a b, leb a b = true \/ leb b a = true.
+  Hypothesis leb_trans : forall a b c, leb a b = true -> leb b c = true -> leb a c = true.
+  Hypothesis leb_antisym : forall a b, leb a b = true -> leb b a = true -> a = b.
+
+  (* any two splits of the same set of tuples into contextual and stored give the same tree
+     (same nodes, same names, identical user lists; computed lists up to order) *)
+  Theorem expand_split_irrelevant_lemma : forall ctx stored ctx' stored' o r t t',
+    (forall x, In x (ctx ++ stored) <-> In x (ctx' ++ stored')) ->
+    expand_top leb m conds ctx stored (XReq o r) = XTree t ->
+    expand_top leb m conds ctx' stored' (XReq o r) = XTree t' ->
+    tree_equiv t t'.
+  Proof.
+    intros ctx stored ctx' stored' o r t t' Hx H1 H2. unfold expand_top in H1, H2.
+    destruct (first_ctx_err m conds ctx); [discriminate |].
+    destruct (first_ctx_err m conds ctx'); [discriminate |].
+    destruct (negb (type_defined m (otype o))); [discriminate |].
+    destruct (get_relation m (otype o) r) as [rd |]; [| discriminate].
+    eapply expand_rw_set_equiv; eassumption.
+  Qed.
+
+  (* what the tree of an accepted request looks like *)
+  Theorem expand_top_mirrors_lemma : forall ctx stored o r t,
+    expand_top leb m conds ctx stored (XReq o r) = XTree t ->
+    exists rd, get_relation m (otype o) r = Some rd /\
+               mirrors leb m conds (ctx ++ stored) o r (rd_rw rd) t /\
+               forall x, In x ctx -> valid_for_read m conds x = true.
+  Proof.
+    intros ctx stored o r t H. unfold expand_top in H.
+    destruct (first_ctx_err m conds ctx) eqn:Hc; [discriminate |].
+    destruct (negb (type_defined m (otype o))); [discriminate |].
+    destruct (get_relation m (otype o) r) as [rd |]; [| discriminate].
+    exists rd. split; [reflexivity |]. split.
+    - apply expand_mirrors; assumption.
+    - intros x Hin. apply ctx_ok_valid. eapply first_ctx_err_none; eassumption.
+  Qed.
+End Top.
+
+(* ---------------------------------------------------------------------------------------- *)
+(* a concrete order on subjects and a concrete scenario (non-vacuity of the hypotheses) *)
+
+Definition render_num (s : subject) : list N :=
+  match s with
+  | SObj o => [0; otype o; oid o]
+  | SWild t => [1; t]
+  | SSet o r => [2; otype o; oid o; r]
+  end.
+
+Definition leb_num : subject -> subject -> bool := leb_of_render render_num.
+
+Lemma render_num_inj : forall a b, render_num a = render_num b -> a = b.
+Proof.
+  intros [[ta ia] | ta | [ta ia] ra] [[tb ib] | tb | [tb ib] rb] H; simpl in H; inversion H; reflexivity.
+Qed.
+
+Lemma leb_num_total : forall a b, leb_num a b = true \/ leb_num b a = true.
+Proof. intros a b. apply lex_leb_total. Qed.
+Lemma leb_num_trans : forall a b c, leb_num a b = true -> leb_num b c = true -> leb_num a c = true.
+Proof. intros a b c. apply lex_leb_trans. Qed.
+Lemma leb_num_antisym : forall a b, leb_num a b = true -> leb_num b a = true -> a = b.
+Proof. intros a b H1 H2. apply render_num_inj. apply lex_leb_antisym; assumption. Qed.
+
+(* types: 1 user, 2 group, 3 folder, 4 doc; relations: 1 member, 2 viewer, 3 parent, 4 editor,
+   5 blocked; condition 1.
+     group.member : [user, group#member]
+     folder.viewer: [user, user:*]
+     doc.parent   : [folder]
+     doc.editor   : [user, user with c1]
+     doc.blocked  : [user]
+     doc.viewer   : [user, group#member] or viewer from parent or (editor but not (this and blocked)) *)
+Definition ex_model : model :=
+  [ {| td_type := 1; td_rels := [] |};
+    {| td_type := 2; td_rels := [ {| rd_rel := 1; rd_rw := This;
+          rd_restr := [ {| r_type := 1; r_kind := RObj; r_cond := 0 |}; {| r_type := 2; r_kind := RSet 1; r_cond := 0 |} ] |} ] |};
+    {| td_type := 3; td_rels := [ {| rd_rel := 2; rd_rw := This;
+          rd_restr := [ {| r_type := 1; r_kind := RObj; r_cond := 0 |}; {| r_type := 1; r_kind := RWild; r_cond := 0 |} ] |} ] |};
+    {| td_type := 4; td_rels := [
+        {| rd_rel := 3; rd_rw := This; rd_restr := [ {| r_type := 3; r_kind := RObj; r_cond := 0 |} ] |};
+        {| rd_rel := 4; rd_rw := This; rd_restr := [ {| r_type := 1; r_kind := RObj; r_cond := 0 |}; {| r_type := 1; r_kind := RObj; r_cond := 1 |} ] |};
+        {| rd_rel := 5; rd_rw := This; rd_restr := [ {| r_type := 1; r_kind := RObj; r_cond := 0 |} ] |};
+        {| rd_rel := 2; rd_rw := Union [This; TTU 3 2; Diff (Computed 4) (Inter [This; Computed 5])];
+           rd_restr := [ {| r_type := 1; r_kind := RObj; r_cond := 0 |}; {| r_type := 2; r_kind := RSet 1; r_cond := 0 |} ] |} ] |} ].
+
+Definition ex_o (t i : N) : obj := {| otype := t; oid := i |}.
+Definition ex_t (o : obj) (r : rid) (s : subject) (c : cid) (e : b3) : tuple :=
+  {| t_obj := o; t_rel := r; t_sub := s; t_cond := c; t_ceval := e |}.
+
+(* stored: two users and a userset on doc:1#viewer, one tuple of a type that viewer does not
+   allow (folder:1, dropped by the read filter), two parents, a conditioned editor whose
+   condition is false *)
+Definition ex_stored : list tuple :=
+  [ ex_t (ex_o 4 1) 2 (SObj (ex_o 1 2)) 0 T;
+    ex_t (ex_o 4 1) 2 (SSet (ex_o 2 1) 1) 0 T;
+    ex_t (ex_o 4 1) 2 (SObj (ex_o 3 1)) 0 T;
+    ex_t (ex_o 4 1) 2 (SObj (ex_o 1 1)) 0 T;
+    ex_t (ex_o 4 1) 3 (SObj (ex_o 3 2)) 0 T;
+    ex_t (ex_o 4 1) 3 (SObj (ex_o 3 1)) 0 T;
+    ex_t (ex_o 4 1) 4 (SObj (ex_o 1 3)) 1 F;
+    ex_t (ex_o 4 2) 2 (SObj (ex_o 1 3)) 0 T ].
+
+(* contextual: a duplicate of a stored tuple and a new user *)
+Definition ex_ctx : list tuple :=
+  [ ex_t (ex_o 4 1) 2 (SObj (ex_o 1 2)) 0 T;
+    ex_t (ex_o 4 1) 2 (SObj (ex_o 1 3)) 0 T ].
+
+Definition ex_tree : tree :=
+  TUnion (ex_o 4 1, 2)
+    [ TUsers (ex_o 4 1, 2) [SObj (ex_o 1 1); SObj (ex_o 1 2); SObj (ex_o 1 3); SSet (ex_o 2 1) 1];
+      TTupleToUserset (ex_o 4 1, 2) (ex_o 4 1, 3) [(UObj (ex_o 3 2), 2); (UObj (ex_o 3 1), 2)];
+      TDiff (ex_o 4 1, 2)
+        (TComputed (ex_o 4 1, 2) (ex_o 4 1, 4))
+        (TInter (ex_o 4 1, 2)
+           [ TUsers (ex_o 4 1, 2) [SObj (ex_o 1 1); SObj (ex_o 1 2); SObj (ex_o 1 3); SSet (ex_o 2 1) 1];
+             TComputed (ex_o 4 1, 2) (ex_o 4 1, 5) ]) ].
+
+Lemma ex_expand : expand_top leb_num ex_model [1] ex_ctx ex_stored (XReq (ex_o 4 1) 2) = XTree ex_tree.
+Proof. vm_compute. reflexivity. Qed.
+
+(* the conditioned tuple (condition false) is listed by Expand *)
+Lemma ex_expand_cond :
+  expand_top leb_num ex_model [1] [] ex_stored (XReq (ex_o 4 1) 4) = XTree (TUsers (ex_o 4 1, 4) [SObj (ex_o 1 3)]).
+Proof. vm_compute. reflexivity. Qed.
+
+(* error classes *)
+Lemma ex_expand_errors :
+  expand_top leb_num ex_model [1] [] ex_stored XEmpty = XErr EInvalidInput /\
+  expand_top leb_num ex_model [1] [] ex_stored (XReq (ex_o 4 1) 9) = XErr EValidation /\
+  expand_top leb_num ex_model [1] [ex_t (ex_o 4 1) 2 (SObj (ex_o 3 1)) 0 T] ex_stored (XReq (ex_o 4 1) 2) = XErr EInvalidTuple /\
+  expand_top leb_num ex_model [1] [ex_t (ex_o 4 1) 5 (SObj (ex_o 1 1)) 1 T] ex_stored (XReq (ex_o 4 1) 2) = XErr EValidation /\
+  expand_rw leb_num ex_model [1] ex_stored (ex_o 4 1) 2 (Union [This; TTU 9 2]) = XErr ERelationNotFound.
+Proof. vm_compute. repeat split. Qed.
